@@ -74,7 +74,7 @@ def kinds_for(idx, n):
 def sampled(rng, n_cases):
     out = []
     for _ in range(n_cases):
-        shape = rng.choice(["chain", "revchain", "diamond", "cycle_tail", "self", "missing", "random"])
+        shape = rng.choice(["chain", "revchain", "diamond", "cycle_tail", "self", "missing", "random", "random"])
         n = rng.choice([2, 3, 5, 8, 13, 20, 40]) if shape in ("chain", "revchain") else rng.randint(3, 9)
         reqs = [[] for _ in range(n)]
         if shape in ("chain", "revchain"):
@@ -103,8 +103,12 @@ def sampled(rng, n_cases):
                 reqs[j] = reqs[j] + rng.sample(["zz", "yy", "p"], rng.randint(1, 2))
         else:
             for i in range(n):
-                reqs[i] = rng.sample([f"c{j}" for j in range(n)] + ["p", "x", "time"], rng.randint(0, 3))
-        kinds = ["d"] * n if rng.random() < 0.5 else [rng.choice("dqrs") for _ in range(n)]
+                # the pool also holds the registered names of (potential) surrogates: those are
+                # names of components, not of values, so requiring one is a missing dependency
+                reqs[i] = rng.sample([f"c{j}" for j in range(n)] + ["p", "x", "time"]
+                                     + [f"c{j}_s" for j in range(n)] + [f"c{j}b" for j in range(n)],
+                                     rng.randint(0, 3))
+        kinds = ["d"] * n if rng.random() < 0.4 else [rng.choice("dqrss") for _ in range(n)]
         order = list(range(n))
         if shape == "revchain":
             order.reverse()
